@@ -195,7 +195,43 @@ enum TaskExecutionMode {
 #[cfg(not(test))]
 #[tokio::main]
 async fn main() -> anyhow::Result<()> {
+    #[cfg(rip_verif)]
+    if std::env::var_os("RIP_VERIF_RENDER").is_some() {
+        return verif_render_stdin();
+    }
     run(Cli::parse()).await
+}
+
+/// Verification hook (compiled only with `--cfg rip_verif`): feed frames (one JSON per line on
+/// stdin) through the three headless renderers and print what each wrote, so an external harness
+/// can check totality and determinism of `render_message` on arbitrary frame sequences.
+#[cfg(all(rip_verif, not(test)))]
+fn verif_render_stdin() -> anyhow::Result<()> {
+    use std::io::BufRead;
+    let lines: Vec<String> = std::io::stdin().lock().lines().collect::<Result<_, _>>()?;
+    let stdout = std::io::stdout();
+    let mut out = stdout.lock();
+    for view in [OutputView::Raw, OutputView::Output, OutputView::Metrics] {
+        let mut state = OutputState::default();
+        let mut buf: Vec<u8> = Vec::new();
+        let mut stopped_at: Option<usize> = None;
+        for (i, line) in lines.iter().enumerate() {
+            match render_message(view, line, &mut buf, &mut state) {
+                Ok(true) => {
+                    stopped_at = Some(i);
+                    break;
+                }
+                Ok(false) => {}
+                Err(err) => {
+                    writeln!(buf, "<<render error: {err}>>")?;
+                }
+            }
+        }
+        writeln!(out, "=== view {view:?} stopped_at {stopped_at:?} bytes {}", buf.len())?;
+        out.write_all(&buf)?;
+        writeln!(out)?;
+    }
+    Ok(())
 }
 
 async fn run(cli: Cli) -> anyhow::Result<()> {
